@@ -14,6 +14,7 @@ def mt_leg(rep, tier):
     work_line = next(n + 1 for n, l in enumerate(src.read_text().splitlines()) if "COUNT.fetch_add" in l)
     shapes = [
         [{"cmd": "drop"}],
+        [{"cmd": "restart"}, {"cmd": "drop"}],          # restart of a process that was never started
         [{"cmd": "break_line", "file": "mt7.rs", "line": work_line}, {"cmd": "start"}, {"cmd": "drop"}],
         [{"cmd": "break_line", "file": "mt7.rs", "line": work_line}, {"cmd": "start"}, {"cmd": "continue"},
          {"cmd": "continue"}, {"cmd": "drop"}],
